@@ -1405,6 +1405,13 @@ pub fn run_sskr(scn: &Scenario, ctx: &mut Ctx) {
                     continue;
                 }
                 let old_alone = policy_met(&groups, gt, &[flat[s].0]);
+                // the two splits draw their 16-bit identifiers independently: once in 65 536 they coincide, the shares of
+                // both splits then land in one group that cannot combine, and nothing is promised (as in K.Foreign)
+                let ids_of = |e: &Envelope| -> BTreeSet<u16> { e.assertions_with_predicate(known_values::SSKR_SHARE).iter().filter_map(|a| a.as_object()).filter_map(|o| o.extract_subject::<bc_components::SSKRShare>().ok()).map(|sh| sh.identifier()).collect() };
+                if ids_of(&second[0]).len() < 2 {
+                    ctx.probe("identifier-collision");
+                    continue;
+                }
                 for mask in 1u32..8 {
                     let envs: Vec<&Envelope> = (0..3).filter(|i| mask & (1 << i) != 0).map(|i| &second[i]).collect();
                     let met2 = envs.len() >= 2;
